@@ -77,41 +77,63 @@ foreach2(String& name, float value, variables)
 template<class T>
 void quicksort(T* a, int n)
 {
-	if (n < 2)
-		return;
-	T p = a[n / 2];
-	T* l = a;
-	T* r = a + n - 1;
-	while (l <= r) {
-		while (*l < p)
-			l++;
-		while (p < *r)
-			r--;
-		if (l <= r)
-			swap(*l++, *r--);
+	while (n >= 2)
+	{
+		T p = a[n / 2];
+		T* l = a;
+		T* r = a + n - 1;
+		while (l <= r) {
+			while (*l < p)
+				l++;
+			while (p < *r)
+				r--;
+			if (l <= r)
+				swap(*l++, *r--);
+		}
+		int nl = int(r - a + 1), nr = int(a + n - l);
+		if (nl < nr) // recurse into the smaller part and loop on the larger one: the depth stays below log2(n)
+		{
+			quicksort(a, nl);
+			a = l;
+			n = nr;
+		}
+		else
+		{
+			quicksort(l, nr);
+			n = nl;
+		}
 	}
-	quicksort(a, int(r - a + 1));
-	quicksort(l, int(a + n - l));
 }
 
 template<class T, class Less>
 void quicksort(T* a, int n, const Less& less)
 {
-	if (n < 2)
-		return;
-	T p = a[n / 2];
-	T* l = a;
-	T* r = a + n - 1;
-	while (l <= r) {
-		while (less(*l, p))
-			l++;
-		while (less(p, *r))
-			r--;
-		if (l <= r)
-			swap(*l++, *r--);
+	while (n >= 2)
+	{
+		T p = a[n / 2];
+		T* l = a;
+		T* r = a + n - 1;
+		while (l <= r) {
+			while (less(*l, p))
+				l++;
+			while (less(p, *r))
+				r--;
+			if (l <= r)
+				swap(*l++, *r--);
+		}
+		int nl = int(r - a + 1), nr = int(a + n - l);
+		if (nl < nr) // recurse into the smaller part and loop on the larger one: the depth stays below log2(n)
+		{
+			quicksort(a, nl, less);
+			a = l;
+			n = nr;
+		}
+		else
+		{
+			quicksort(l, nr, less);
+			n = nl;
+		}
 	}
-	quicksort(a, int(r - a + 1), less);
-	quicksort(l, int(a + n - l), less);
 }
 
 /**
